@@ -202,5 +202,42 @@ static void body_hashset(void) {
     vx_obs_u64((uint64_t)(slot * 1000 + ncoll * 100 + nfill)); vx_nontrivial(); vx_stat_add("hashset_lookups", n);
 }
 
-static void body(void) { if (g_mode == 0) body_roundtrip(); else if (g_mode == 1) body_corrupt(); else if (g_mode == 3) body_rawcontent(); else body_hashset(); }
+
+/* --mode 4: far into the frame.  A dictionary's tables are vetted for what a first block can need; later blocks may need offset codes (and lengths) the tables
+ * lack.  Input = k incompressible 128 KiB blocks (emitted raw: no compressed block precedes), then one block that copies from the dictionary content and from
+ * the first blocks - offsets of 2^18 .. 2^20 - for every loadable structured dictionary x supply {usingDict, refCDict, loadDictionary} x levels {1, 3, 5}. */
+static u8 *g_far, *g_farDst, *g_farOut, *g_farScratch;
+#define FARCAP ((9u << 17) + 4096)
+static void body_far(void) {
+    int di = vx_choose(g_nd), cs = vx_choose(3), li = vx_choose(3), ki = vx_choose(3);
+    const drec_t* D = &g_d[di]; static const int LV[] = {1, 3, 5}; static const int KB[] = {3, 5, 9}; int level = LV[li], k = KB[ki];
+    vx_label("far dict#%d supply%d level%d blocks%d ;; %s", di, cs, level, k, D->name);
+    if (!D->id || (D->flags & 2) || !(D->flags & 1)) { vx_obs_u64(31); return; }
+    if (cs == 0 && k != 3) { vx_obs_u64(32); return; }                 /* usingDict derives a 512 KiB window from the level */
+    if (!g_far) { g_far = (u8*)malloc(FARCAP); g_farDst = (u8*)malloc(ZSTD_compressBound(FARCAP)); g_farOut = (u8*)malloc(FARCAP + 64); g_farScratch = (u8*)malloc(FARCAP + 64); }
+    size_t n = (size_t)k << 17; fill_noise(g_far, n, 41);
+    {   const u8* dc = D->d + (D->n > 220 ? D->n - 220 : 8); size_t dl = D->n > 220 ? 200 : (D->n > 40 ? D->n - 40 : 8); u8* p = g_far + n;
+        memcpy(p, dc, dl); p += dl; fill_text(p, 24, 3); p += 24; memcpy(p, g_far + 1000, 200); p += 200; fill_text(p, 30, 4); p += 30; memcpy(p, dc, dl / 2); p += dl / 2;
+        memcpy(p, g_far + 131072 + 500, 150); p += 150; fill_text(p, 40, 5); p += 40; memcpy(p, g_far + 77, 90); p += 90; memcpy(p, g_far + 262144 + 10, 120); p += 120; fill_text(p, 50, 6); p += 50; n = (size_t)(p - g_far); }
+    ZSTD_CCtx* c = ZSTD_createCCtx(); ZSTD_CDict* cd = NULL; size_t r;
+    if (cs == 0) r = ZSTD_compress_usingDict(c, g_farDst, ZSTD_compressBound(n), g_far, n, D->d, D->n, level);
+    else {
+        ZSTD_CCtx_setParameter(c, ZSTD_c_compressionLevel, level); ZSTD_CCtx_setParameter(c, ZSTD_c_windowLog, 21);
+        if (cs == 1) { ZSTD_CCtx_params* P = ZSTD_createCCtxParams(); ZSTD_CCtxParams_setParameter(P, ZSTD_c_compressionLevel, level); ZSTD_CCtxParams_setParameter(P, ZSTD_c_windowLog, 21);
+            cd = ZSTD_createCDict_advanced2(D->d, D->n, ZSTD_dlm_byRef, ZSTD_dct_auto, P, ZSTD_defaultCMem); ZSTD_freeCCtxParams(P); if (!cd) { vx_fail("far: CDict creation failed"); ZSTD_freeCCtx(c); return; } ZSTD_CCtx_refCDict(c, cd); }
+        else { size_t e = ZSTD_CCtx_loadDictionary(c, D->d, D->n); if (ZSTD_isError(e)) { vx_fail("far: loadDictionary failed: %s", ZSTD_getErrorName(e)); ZSTD_freeCCtx(c); return; } }
+        r = ZSTD_compress2(c, g_farDst, ZSTD_compressBound(n), g_far, n);
+    }
+    if (ZSTD_isError(r)) vx_fail("compression with the dictionary fails %d blocks into the frame: %s", k, ZSTD_getErrorName(r));
+    else {
+        ZSTD_DCtx* d = ZSTD_createDCtx(); size_t o = ZSTD_decompress_usingDict(d, g_farOut, FARCAP, g_farDst, r, D->d, D->n); ZSTD_freeDCtx(d);
+        if (ZSTD_isError(o) || o != n || memcmp(g_farOut, g_far, n)) vx_fail("round trip fails %d blocks into the frame (supply %d, level %d): %s", k, cs, level, ZSTD_isError(o) ? ZSTD_getErrorName(o) : "content differs");
+        else { refcheck_t rc; rc_init(&rc); rc.interop = 1; rc.expectDictID = (long)D->id;
+            if (ref_check(&rc, g_farDst, r, D->d, D->n, g_far, n, g_farScratch, FARCAP)) vx_fail("reference decoder with the dictionary, %d blocks into the frame: %s", k, rc.err);
+            else { if (rc.maxOffset >= (1u << 18)) { vx_nontrivial(); vx_stat_add("far_frames_with_offsets_beyond_2^18", 1); } vx_obs_u64(vx_hash(g_farDst, r)); } }
+    }
+    ZSTD_freeCCtx(c); ZSTD_freeCDict(cd);
+}
+
+static void body(void) { if (g_mode == 4) { body_far(); return; } if (g_mode == 0) body_roundtrip(); else if (g_mode == 1) body_corrupt(); else if (g_mode == 3) body_rawcontent(); else body_hashset(); }
 int main(int argc, char** argv) { return vx_main(argc, argv, init, body); }
